@@ -84,7 +84,22 @@ func Harness_tail() {
 	fname := func(i int) string { return "f" + string(rune('0'+i%cycle)) }
 	prog := []MalType{sym("do")}
 	for f := 0; f < cycle; f++ {
-		var body MalType = lst(sym("if"), lst(sym(">"), sym("n"), 0), lst(sym(fname(f+1)), lst(sym("-"), sym("n"), 1)), NewKeyword("done"))
+		// the tail call: its head is the function's name, or a computed form that yields the function
+		var head MalType = sym(fname(f + 1))
+		if nh := vrt.Param("heads", 1); nh > 1 {
+			switch vrt.Concrete(vrt.Choice("head"+string(rune('0'+f)), nh)) {
+			case 1:
+				head = lst(sym("if"), true, sym(fname(f+1)), sym(fname(f+1)))
+				shapeName += "computed-head "
+			case 2:
+				head = lst(sym("fn"), vect(sym("m")), lst(sym(fname(f+1)), sym("m")))
+				shapeName += "lambda-head "
+			case 3:
+				head = lst(sym("get"), HashMap{Val: map[string]MalType{NewKeyword("k"): sym(fname(f + 1))}}, NewKeyword("k"))
+				shapeName += "table-head "
+			}
+		}
+		var body MalType = lst(sym("if"), lst(sym(">"), sym("n"), 0), lst(head, lst(sym("-"), sym("n"), 1)), NewKeyword("done"))
 		for w := 0; w < nw; w++ {
 			k := vrt.Concrete(vrt.Choice("w"+string(rune('0'+f))+string(rune('0'+w)), len(wrapperNames)))
 			body = wrap(k, body)
@@ -120,3 +135,6 @@ func Harness_tail() {
 
 // Harness_tail_session: the same measurement after a debugger session (see Harness_tail, parameter session).
 func Harness_tail_session() { Harness_tail() }
+
+// Harness_tail_heads: the tail call's head is a computed form (parameter heads).
+func Harness_tail_heads() { Harness_tail() }
